@@ -241,16 +241,34 @@ def _check_weighted_result(fn, v, env, fr, res, ws, args):
     return fails, levels
 
 
-def task_weighted(out, vectors, modes, exhaustive):
+def sparse(ws):
+    """Classification only: the set of weights has a gap (some level is empty although operands sit both below and
+    above it).  Only then can a level receive carries but no operand while operands wait further up, which is where
+    the work lists of the weighted summators (singles / (x, x xor y) pairs per level) can get out of step, e.g.
+    weights [0, 0, 0, 0, 2]: four bits of level 0 leave one pair and no single bit for the empty level 1."""
+    d = sorted(set(ws))
+    return any(y - x > 1 for x, y in zip(d, d[1:]))
+
+
+def multisets(nmax, wmax):
+    """all weight vectors up to permutation: sorted tuples, 1 <= n <= nmax, weights in 0..wmax"""
+    return [ws for n in range(1, nmax + 1) for ws in itertools.combinations_with_replacement(range(wmax + 1), n)]
+
+
+def task_weighted(out, vectors, modes, exhaustive, bases=None, wrappers=True):
+    """bases: indices into K.BASIS_SPELLINGS (None: all seven); wrappers: also run the generate_* forms."""
     A, SM = _A()
+    spellings = K.BASIS_SPELLINGS if bases is None else [K.BASIS_SPELLINGS[i] for i in bases]
     for ws in vectors:
         ws = list(ws)
         n = len(ws)
         levels_hint = None
+        add_form_wrong = set()     # (add_ form, basis spelling) whose own result on primary inputs fails levels / value
+        tok = 'sparse-weights' if sparse(ws) else None
         for fn in ('add_sum_n_weighted_bits', 'add_sum_n_weighted_bits_naive'):
-            core = Core(PROP, fn)
+            core = Core(PROP, fn, tok)
             for mode in modes:
-                for b in K.BASIS_SPELLINGS:
+                for b in spellings:
                     v = Variant(False, mode, b)
                     env = make_env(mode, [n], salt=(fn, tuple(ws)))
                     fr = Frame(env)
@@ -266,18 +284,27 @@ def task_weighted(out, vectors, modes, exhaustive):
                             fails += f2
                             if levels is not None and not f2 and levels_hint is None:
                                 levels_hint = levels
+                            if f2 and mode == 'bare':
+                                add_form_wrong.add((fn, b))
                             fails += _basis_failures(fn, v, fr, args)
                             fails += _count_failures(fn, v, len(fr.new), n, len(res), args, fr)
                     core.add(v, fails)
             core.flush(out)
+        if not wrappers:
+            continue
         for fn, g in (('generate_sum_weighted_bits_efficient', A.generate_sum_weighted_bits_efficient),
                       ('generate_sum_weighted_bits_naive', A.generate_sum_weighted_bits_naive)):
-            core = Core(PROP, fn, delegate='add_sum_n_weighted_bits' if fn.endswith('efficient') else 'add_sum_n_weighted_bits_naive')
+            core = Core(PROP, fn, tok, delegate='add_sum_n_weighted_bits' if fn.endswith('efficient') else 'add_sum_n_weighted_bits_naive')
             for b in K.BASIS_SPELLINGS:
                 v = Variant(False, 'generated', b)
                 args = {'weights': ws, 'basis': b[0]}
                 c, fails = _call(fn, g, v, args, None, list(ws), basis=K.basis_value(b))
                 out.case(D_WEIGHTED, (fn, tuple(ws), b, exhaustive), nontrivial=n > 1)
+                # the wrapper returns what its add_ form builds on primary inputs: when that result is already reported
+                # (levels not distinct / identity broken) the outputs cannot be read at the hinted levels, same cause
+                if (core.delegate, b) in add_form_wrong:
+                    core.add(v, fails)
+                    continue
                 if not fails and levels_hint is not None:
                     net = K.N.snapshot(c)
                     if len(net.outputs) != len(levels_hint):
@@ -316,9 +343,13 @@ def task_adders(out, n, m, modes):
         for be in (False, True):
             v = Variant(be, mode)
             env = make_env(mode, [n, m], salt=(fn, be))
-            fr = Frame(env)
             la, lb = _rev(env.ops[0], be), _rev(env.ops[1], be)
             args = {'input_labels_a': la, 'input_labels_b': lb, 'big_endian': be}
+            tw = None
+            if mode == 'twice':      # first (b, a), then the checked call (a, b) in the same circuit
+                tw = K.Twice(fn, v, env)
+                tw.first(SM.add_sum_two_numbers, {'input_labels_a': lb, 'input_labels_b': la, 'big_endian': be}, env.circuit, list(lb), list(la), big_endian=be)
+            fr = Frame(env)
             res, fails = _call(fn, SM.add_sum_two_numbers, v, args, fr, env.circuit, list(la), list(lb), big_endian=be)
             out.case(D_ADDERS, (fn, n, m, mode, be), sample={'function': fn, 'n': n, 'm': m, 'big_endian': be} if (n, m, mode) == (2, 1, 'bare') else None)
             if not fails:
@@ -329,6 +360,10 @@ def task_adders(out, n, m, modes):
                     if len(res) != max(n, m) + 1:
                         fails.append(('length', f'{fn}: {len(res)} result bits for widths {n},{m}; expected max(n,m)+1',
                                       replay(fn, v, args, fr, observed=len(res), expected=max(n, m) + 1)))
+                    if tw is not None and tw.result is not None:
+                        fails += tw.check(fr, 'value', _rev(tw.result, be), exp, 'b + a', args)
+            if tw is not None:
+                fails += tw.fail
             core.add(v, fails)
     core.flush(out)
     fn = 'add_sum_two_numbers_with_shift'
@@ -336,6 +371,8 @@ def task_adders(out, n, m, modes):
         tok = 'shift>len(a)' if shift > n else 'shift==len(a)' if shift == n else None
         core = Core(PROP, fn, tok)
         for mode in modes:
+            if mode == 'twice':
+                continue
             for be in (False, True):
                 v = Variant(be, mode)
                 env = make_env(mode, [n, m], salt=(fn, be, shift))
@@ -426,12 +463,20 @@ def run_bounded(rep, quick):
                        'all 2^n input values bit-parallel, both endiannesses, operands = primary inputs / internal gates of a bijective host / '
                        'arbitrary (repeated) nodes of seeded random hosts (n <= 6); value, basis, gate-count, frame clauses',
                        f'n <= {W} exhaustive values', exhaustive=True)
+    msn, msw = (6, 4) if quick else (7, 5)
+    n_sample = 32 if quick else 160
     rep.bounded_driver(D_WEIGHTED, 'add_sum_n_weighted_bits(_naive) and generate_sum_weighted_bits_efficient/naive on all weight vectors '
                        + ('n <= 4, weights <= 2' if quick else 'n <= 5, weights <= 3') + f' (ordered), seeded random vectors up to n = {W}, weights <= 6; '
-                       '7 basis spellings, operands inputs / host gates / random host nodes, all input values; levels distinct, identity, basis, gate-count, frame',
+                       '7 basis spellings, operands inputs / host gates / random host nodes, all input values; levels distinct, identity, basis, gate-count, frame; '
+                       f'sparse weight vectors: the two add_ forms on ALL weight multisets (sorted vectors) n <= {msn}, weights <= {msw} with basis GenerationBasis.XAIG'
+                       + ('' if quick else ' and GenerationBasis.AIG') + ' on primary inputs' + ('' if quick else ' and host gates') + ', all input values, '
+                       f'and {n_sample} seeded multisets of them (half with a gap in the weights, seeded permutation) through all 7 spellings, the three operand modes and the generate_ forms',
                        'all vectors to the stated size, seeded beyond', exhaustive=False)
+    wa = 6 if quick else 8
     rep.bounded_driver(D_ADDERS, f'add_sum_two_numbers and add_sum_two_numbers_with_shift (shift 0..len(a)+2) on all width pairs n+m <= {W}, all operand values, '
-                       'both endiannesses, operands inputs / host gates / random host nodes (n+m <= 6)', f'n+m <= {W} exhaustive values', exhaustive=True)
+                       'both endiannesses, operands inputs / host gates / random host nodes (n+m <= 6); '
+                       f'n+m <= {wa}: adversarial hosts (gates of all 14 binary types over the first two bit positions, both operand orders) and add_sum_two_numbers called twice ((b, a) then (a, b), both results checked)',
+                       f'n+m <= {W} exhaustive values', exhaustive=True)
     rep.bounded_driver(D_LEAF, 'add_sum2, add_sum3, add_sum2_aig, add_sum3_aig, add_stockmeyer_block, add_mdfa, add_simplified_mdfa: all operand values, '
                        'operands inputs / host gates / random host nodes', 'finite gadgets, exhaustive', exhaustive=True)
     tasks = []
@@ -451,9 +496,22 @@ def run_bounded(rep, quick):
         rnd.append(tuple(rng.randint(0, wm) for _ in range(n)))
     for i in range(0, len(rnd), 8):
         tasks.append(('task_weighted', (rnd[i:i + 8], ['bare', 'host'], False)))
+    # sparse weight vectors: every multiset to (msn, msw) for the add_ forms in the enum bases on primary inputs ...
+    done = set(vecs)
+    ms = [ws for ws in multisets(msn, msw) if ws not in done]
+    chunk = 80
+    for i in range(0, len(ms), chunk):
+        tasks.append(('task_weighted', (ms[i:i + chunk], ['bare'] if quick else ['bare', 'host'], True, [0] if quick else [0, 1], False)))
+    # ... and a seeded sample of them (half of it with a gap and n >= 5) in a seeded order through everything else
+    rng = K.rng_for(PROP, 'sparse-sample')
+    gap = [ws for ws in ms if sparse(ws) and len(ws) >= 5]
+    smp = rng.sample(gap, n_sample // 2) + rng.sample(ms, n_sample - n_sample // 2)
+    smp = list(dict.fromkeys(tuple(rng.sample(ws, len(ws))) for ws in smp))
+    for i in range(0, len(smp), 8):
+        tasks.append(('task_weighted', (smp[i:i + 8], ['bare', 'host', 'hostrand'], False)))
     for n in range(1, W):
         for m in range(1, W - n + 1):
-            modes = ['bare', 'host'] + (['hostrand'] if n + m <= 6 else [])
+            modes = ['bare', 'host'] + (['hostrand'] if n + m <= 6 else []) + (K.ADV_MODES if n + m <= wa else [])
             tasks.append(('task_adders', (n, m, modes)))
     tasks.append(('task_leaf', (['bare', 'host', 'hostrand'],)))
     K.run_tasks(rep, PROP, __name__, tasks, quick)
